@@ -31,24 +31,34 @@ def xmit2Run (mtu2 : Nat) : List (List Nat) â†’ Option LgXmit â†’ List String â†
       xmit2Run mtu2 rest lg' ((so ++ ss) :: acc)
     | _ => ("bad-op" :: acc).reverse
 
-/-- the first response is built by the application through coap_add_data_large_response on a 1152-byte PDU: with that
-much room the block size is the requested one and an lg_xmit exists iff the body needs more than one block -/
+/-- `xmit2 <szx> <bodyLen> <seed> <mtu1:mtu2 | mtu2> <items>`: the first response is built by the application through
+coap_add_data_large_response on an `mtu1`-byte PDU (1152 if not given): `addDataLargeRsp` (4-byte token, Content-Format
+42 = 2 bytes, ETag = 1 byte) -/
 def xmit2Line (args : List String) : String :=
   match args with
   | [a, b, c, d, seq] =>
-    match nat? a, nat? b, nat? c, nat? d with
-    | some szx, some bodyLen, some seed, some mtu2 =>
+    let mt := (d.split (Â· == ':')).toList.map (fun x => x.toString)
+    let (m1, m2) := match mt with
+      | [x, y] => (nat? x, nat? y)
+      | [y] => (some 1152, nat? y)
+      | _ => (none, none)
+    match nat? a, nat? b, nat? c, m1, m2 with
+    | some szx, some bodyLen, some seed, some mtu1, some mtu2 =>
       match (if seq = "-" then some [] else (seq.split (Â· == ',')).toList.mapM (fun x => splitNats x.toString '.')) with
       | none => "bad-op"
       | some its =>
         let body := mkBody bodyLen seed
-        let chunk := 2 ^ (szx + 4)
-        let lg : Option LgXmit := if bodyLen > chunk then some { data := body, blkSize := szx } else none
-        let first := showMsg 0 (moreBit bodyLen 0 szx) szx (body.take chunk)
-        let lgs := match lg with | some x => toString x.blkSize | none => "-1"
-        let items := xmit2Run mtu2 its lg []
-        "M " ++ first ++ " lg=" ++ lgs ++ (if items.isEmpty then "" else " " ++ String.intercalate "," items)
-    | _, _, _, _ => "bad-op"
+        match addDataLargeRsp mtu1 4 2 12 szx 0 bodyLen 1 with
+        | none => "M fail lg=-1" ++ (if its.isEmpty then "" else " " ++ String.intercalate "," (xmit2Run mtu2 its none []))
+        | some r =>
+          let first := match r.blockVal with
+            | some v => showMsg (v / 16) ((v / 8) % 2) (v % 8) (body.take r.payload)
+            | none => s!"n:{r.payload}:{hex8 (fnv (body.take r.payload))}"
+          let lg : Option LgXmit := if r.lgXmit then some { data := body, blkSize := r.blkSize } else none
+          let lgs := if r.lgXmit then toString r.blkSize else "-1"
+          let items := xmit2Run mtu2 its lg []
+          "M " ++ first ++ " lg=" ++ lgs ++ (if items.isEmpty then "" else " " ++ String.intercalate "," items)
+    | _, _, _, _, _ => "bad-op"
   | _ => "bad-op"
 
 def showLg (lg : Option LgXmit) : String :=
